@@ -25,8 +25,8 @@ ASSUMPTIONS = [
     "outcomes are compared on a class-qualified, offset-aware, representation-strict canonical form; operations whose outcome depends on wall-clock 'today' (time-only text into date/datetime) are not generated",
     "string references are issued from one fixed module per history, except in the dedicated two-module scenario (D27)",
 ]
-PLAN = {"quick": dict(histories=640, maxlen=50, pressure=False), "thorough": dict(histories=12000, maxlen=60, pressure=True)}
-FLOORS = {"quick": {"suite_unmarshal_determinism_judged": 20, "suite_tests_passed": 1400, "ops_compared_with_cold": 12000, "histories": 540, "redefinition_histories": 400, "equal_but_distinct_inputs": 3000, "result_mutations": 1000, "aliasing_checks": 20000,
+PLAN = {"quick": dict(histories=736, maxlen=50, pressure=False), "thorough": dict(histories=13760, maxlen=60, pressure=True)}
+FLOORS = {"quick": {"suite_unmarshal_determinism_judged": 20, "suite_tests_passed": 1400, "ops_compared_with_cold": 12000, "histories": 540, "redefinition_histories": 450, "equal_but_distinct_inputs": 3000, "result_mutations": 900, "aliasing_checks": 20000,
                     "union_twin_histories": 150, "two_module_string_ref_histories": 50},
           "thorough": {"suite_unmarshal_determinism_judged": 20, "suite_tests_passed": 1400, "ops_compared_with_cold": 300000, "histories": 10000, "redefinition_histories": 8000, "equal_but_distinct_inputs": 60000, "result_mutations": 25000,
                        "aliasing_checks": 300000, "union_twin_histories": 2500, "cache_pressure_ops": 100}}
